@@ -30,7 +30,9 @@ ASSUMPTIONS = [
 def _ops_of(spec):
     b = [list(o) for o in spec["b"]]
     first = [["insert_hugr", b, spec["first"]]] if "first" in spec else []
-    return [list(o) for o in spec["a"]] + first + [["insert_hugr", b, spec["parent"]]]
+    # B may have been edited further (`b2`) between the earlier insertion and the measured one
+    b_now = b + [list(o) for o in spec.get("b2", [])]
+    return [list(o) for o in spec["a"]] + first + [["insert_hugr", b_now, spec["parent"]]]
 
 
 def payload(spec):
@@ -121,8 +123,12 @@ def oracle(spec):
         # the same B was inserted once before (elsewhere): the second insertion embeds it again, afresh
         try:
             ra.h.insert_hugr(rb.h, ra.node(spec["first"]) if spec["first"] is not None else None)
+            rb.h.to_json()
         except Exception:  # noqa: BLE001
             return fails
+        for o in spec.get("b2", []):
+            if rb.apply(o)[0] != "ok":
+                return fails
     a_before = _dump(ra.h)
     b_before = _dump(rb.h)
     b_snap = C04.snapshot(rb.h)
@@ -261,8 +267,11 @@ def cases(rng, tier):
         live_a = sorted(C04._simulate_live(a))
         parent = rng.choice(live_a) if rng.random() < 0.8 else None
         spec = {"kind": "raw", "a": a, "b": b, "parent": parent}
-        if rng.random() < 0.2:
+        if rng.random() < 0.25:
             spec["first"] = rng.choice(live_a) if rng.random() < 0.8 else None
+            if len(b) >= 4 and rng.random() < 0.6:
+                k = rng.randint(2, len(b) - 1)
+                spec["b"], spec["b2"] = b[:k], b[k:]
         yield spec
     for i in range(n_b):
         yield {
@@ -293,6 +302,8 @@ def shrink(spec, pred):
     if spec.get("kind", "raw") != "raw":
         return spec
     s = copy.deepcopy(spec)
+    if s.get("b2"):
+        s["b2"] = ddmin(s["b2"], lambda b2: pred({**s, "b2": b2}))
     s["b"] = ddmin(s["b"], lambda b: pred({**s, "b": b}))
     s["a"] = ddmin(s["a"], lambda a: pred({**s, "a": a}))
     return s
